@@ -76,6 +76,7 @@ const D = {
   selfAssign:  { tpl: (i) => `var sa${i} = x;\nsa${i} = <Comp>{sa${i}}</Comp>;\n__out.k${i} = () => sa${i};`, jsx: true },
   selfAssignLet: { tpl: (i) => `let sl${i} = x;\nsl${i} = <Comp>{sl${i}}</Comp>;\n__out.k${i} = () => sl${i};`, jsx: true },
   selfAssignFn:{ tpl: (i) => `function sf${i}(p) { p = <Comp>{p}</Comp>; return p; }\n__out.k${i} = () => sf${i}(x);`, jsx: true },
+  selfAssignArrow: { tpl: (i) => `var sw${i} = x;\nconst aw${i} = () => (sw${i} = <Comp>{sw${i}}</Comp>);\n__out.k${i} = () => aw${i}();`, jsx: true },
   selfAssignTwice: { tpl: (i) => `function st${i}(p) { p = <Comp>{p}</Comp>; p = <B>{p}</B>; return p; }\n__out.k${i} = () => st${i}(x);`, jsx: true },
   selfAssignTwiceMod: { tpl: (i) => `var sm${i} = x;\nsm${i} = <Comp>{sm${i}}</Comp>;\nsm${i} = <B>{sm${i}}</B>;\n__out.k${i} = () => sm${i};`, jsx: true },
   pragmaLike:  { tpl: (i) => `const pr${i} = <div class={c1}>{xx}</div>;\n__out.k${i} = () => pr${i};`, jsx: true },
